@@ -145,7 +145,15 @@ pub fn world_batch(
         (o.fold)(rep);
         if i < 3 {
             if let Some(w) = &o.world {
-                rep.sample(json!({"world": i, "suite": w.suite, "note": w.note, "ops": w.ops.iter().map(|o| o.name()).collect::<Vec<_>>()}));
+                let detail: Vec<String> = w.ops.iter().take(10).map(|o| {
+                    let mut t = serde_json::to_string(o).unwrap_or_default();
+                    if t.len() > 220 {
+                        t.truncate(220);
+                        t.push('…');
+                    }
+                    t
+                }).collect();
+                rep.sample(json!({"world": i, "suite": w.suite, "note": w.note, "n_ops": w.ops.len(), "op_sequence": w.ops.iter().take(60).map(|o| o.name()).collect::<Vec<_>>(), "first_ops_in_full": detail, "faults": w.faults, "knobs": w.knobs}));
             }
         }
         let mut done = std::collections::BTreeSet::new();
